@@ -75,7 +75,9 @@ def check_prop(prop, tier, seed, a):
     t0 = time.time()
     jobs = registry.jobs_for(prop, tier, seed)
     if a.job:
-        jobs = [j for j in jobs if re.search(a.job, j.name)]
+        # a job named explicitly may also be one kept in no tier ("manual")
+        pool = jobs + ([j for j in registry.all_jobs(seed) if prop in j.props and j.tier == "manual"] if tier == "thorough" else [])
+        jobs = [j for j in pool if re.search(a.job, j.name)]
     if a.timeout:
         for j in jobs:
             j.timeout = a.timeout
